@@ -463,6 +463,41 @@ def _holds_relocate_chain(ctx, inp, out):
     return None
 
 
+# ------------------------------------------------------------------ paths that exist on disk
+DISK_ROOT = os.path.join(leanio.RUN_DIR, "c18-disk")     # fixed (no pid): a replay finds the same tree again
+DISK_TREE = {"files": ["A/x.wav", "A/sub dir/y.wav", "A/sub dir/deeper/z.wav", "B/x.wav", "B/sub dir/y.wav", "x.wav",
+                       "sub dir/y.wav"],
+             "dirs": ["C", "A/empty"], "links": {"L": "A", "A/sub link": "sub dir"}}
+
+
+def _ensure_disk(spec):
+    """real files / directories / symbolic links under DISK_ROOT (idempotent; nothing is ever removed)"""
+    for f in spec.get("files", []):
+        q = os.path.join(DISK_ROOT, f)
+        os.makedirs(os.path.dirname(q), exist_ok=True)
+        if not os.path.exists(q):
+            open(q, "a").close()
+    for d in spec.get("dirs", []):
+        os.makedirs(os.path.join(DISK_ROOT, d), exist_ok=True)
+    for name, to in spec.get("links", {}).items():
+        q = os.path.join(DISK_ROOT, name)
+        os.makedirs(os.path.dirname(q), exist_ok=True)
+        if not os.path.lexists(q):
+            try:
+                os.symlink(to, q)
+            except FileExistsError:
+                pass
+
+
+def _with_disk(f):
+    def g(inp):
+        if inp.get("disk"):
+            _ensure_disk(inp["disk"])
+        return f(inp)
+    g.__doc__ = f.__doc__
+    return g
+
+
 # ------------------------------------------------------------------ Tie 1: the adapter table, by introspection
 def _reachable_instances(root, cls, depth=6):
     """every instance of `cls` reachable from `root` through instance attributes, whatever their names"""
@@ -500,10 +535,16 @@ def _adapter_rows():
     from soundevent import data
     real = importlib.import_module("soundevent.io.aoef")
     recmod = importlib.import_module("soundevent.io.aoef.recording")
-    table, RA, RO = (getattr(real, "ADAPTERS", None), getattr(recmod, "RecordingAdapter", None),
-                     getattr(recmod, "RecordingObject", None))
+    table = getattr(real, "ADAPTERS", None)
+    # the two classes by what they are (a renamed class is found all the same): the adapter is the class of the module
+    # with the two conversion methods, the object class the pydantic model with a `path` field
+    own = [c for c in vars(recmod).values() if isinstance(c, type) and c.__module__ == recmod.__name__]
+    RA = getattr(recmod, "RecordingAdapter", None) or next(
+        (c for c in own if hasattr(c, "assemble_aoef") and hasattr(c, "assemble_soundevent")), None)
+    RO = getattr(recmod, "RecordingObject", None) or next(
+        (c for c in own if "path" in getattr(c, "model_fields", {})), None)
     if table is None or RA is None or RO is None:
-        raise LookupError("soundevent.io.aoef.ADAPTERS / recording.RecordingAdapter / recording.RecordingObject not found")
+        raise LookupError("soundevent.io.aoef.ADAPTERS / the recording adapter class / the recording object class not found")
     sent = Path("/c18 probe/audio dir")
 
     def rec(p):
@@ -574,9 +615,9 @@ OPS = {
     "path_parse": Op("path_parse", _impl_parse, model_op="parse"),
     "path_relative_to": Op("path_relative_to", _impl_rel, model_op="relative_to"),
     "path_join": Op("path_join", _impl_join, model_op="join"),
-    "stored": Op("stored", _impl_stored, holds=_holds_stored, compare=_cmp_sorted_val, model_op="stored",
+    "stored": Op("stored", _with_disk(_impl_stored), holds=_holds_stored, compare=_cmp_sorted_val, model_op="stored",
                  to_model=_model_args("collection", "audio_dir")),
-    "relocate": Op("relocate", _impl_relocate, holds=_holds_relocate, compare=_cmp_sorted_val, model_op="relocate",
+    "relocate": Op("relocate", _with_disk(_impl_relocate), holds=_holds_relocate, compare=_cmp_sorted_val, model_op="relocate",
                    to_model=_model_args("collection", "save_dir", "load_dir")),
     "relocate_many": Op("relocate_many", _impl_relocate_many, holds=_holds_relocate_many, compare=_cmp_list,
                         nontrivial=lambda i, o: any("val" in x for x in o),
@@ -952,6 +993,80 @@ def _grid_cases(ctx):
     return stored, reloc
 
 
+def _disk_cases(ctx):
+    """the same questions about paths that exist: real files under A (and under B, not under C), a symbolic link
+    L -> A and one inside A; pathlib's answers are lexical, so nothing may depend on what is on disk"""
+    rng = random.Random("C18-disk")
+    R = DISK_ROOT
+    stored, reloc = [], []
+    rels = ["x.wav", "sub dir/y.wav", "sub dir/deeper/z.wav", "sub link/y.wav", "missing.wav", "empty"]
+    for ty in aoefgen.TYPES:
+        for base in ("A", "L"):
+            for rel in rels:
+                cj = _minimal(rng, ty, f"{R}/{base}/{rel}")
+                how = rng.choice(["str", "path"])
+                stored.append({"collection": cj, "audio_dir": f"{R}/{base}", "dir_as": how, "disk": DISK_TREE})
+                other = "L" if base == "A" else "A"       # the same directory through / not through the link: outside
+                stored.append({"collection": cj, "audio_dir": f"{R}/{other}", "dir_as": how, "disk": DISK_TREE})
+                for B in (f"{R}/B", f"{R}/C", f"{R}/L", f"{R}/missing", R, None):
+                    if rng.random() < 0.5:
+                        reloc.append({"collection": cj, "save_dir": f"{R}/{base}", "load_dir": B, "dir_as": how,
+                                      "load_as": rng.choice(["str", "path"]), "disk": DISK_TREE})
+                if rng.random() < 0.3:
+                    reloc.append({"collection": cj, "save_dir": None, "load_dir": f"{R}/B", "dir_as": how, "disk": DISK_TREE})
+    ctx.tally("cases with paths that exist on disk (files, directories, symbolic links)", len(stored) + len(reloc))
+    return stored, reloc
+
+
+def _large_cases(ctx):
+    """collections far larger than the generator's usual ones (a batch / fast path for long lists would show here):
+    every recording inside, and the last / a middle one outside"""
+    rng = random.Random("C18-large")
+    stored, reloc = [], []
+    for ty in aoefgen.TYPES:
+        n = 130 if ty in ("recording_set", "dataset") else 36
+        g = PGen(rng, base="/data/audio", size=0.8, itself=0.0)
+        g.recordings = [g.recording(i) for i in range(n)]
+        g.clips = [dict(g.clip(), recording=copy.deepcopy(r)) for r in g.recordings]
+        cj = g.collection(ty)
+        v = cj["value"]
+        if ty in ("recording_set", "dataset"):
+            v["recordings"] = copy.deepcopy(g.recordings)
+        elif ty in ANN_TYPES:
+            v["clip_annotations"] = [g.ca(copy.deepcopy(c)) for c in g.clips]
+            if ty == "annotation_project":
+                v["tasks"] = [g.task(c) for c in g.clips]
+        elif ty in PRED_TYPES:
+            v["clip_predictions"] = [g.cp(copy.deepcopy(c)) for c in g.clips]
+        else:
+            old = g.clips
+            ces = []
+            for c in old:
+                g.clips = [c]
+                ces.append(g.ce())
+            g.clips = old
+            v["clip_evaluations"] = ces
+        stored.append({"collection": cj, "audio_dir": "/data/audio", "dir_as": "path"})
+        reloc.append({"collection": cj, "save_dir": "/data/audio/", "load_dir": "/mnt/other disk", "dir_as": "str", "load_as": "path"})
+        for where in (n - 1, n // 2):
+            bad = copy.deepcopy(cj)
+            u = g.recordings[where]["uuid"]
+
+            def move(x):
+                if isinstance(x, dict):
+                    if x.get("uuid") == u and "samplerate" in x:
+                        x["path"] = "/data/audio2/stray.wav"
+                    for y in x.values():
+                        move(y)
+                elif isinstance(x, list):
+                    for y in x:
+                        move(y)
+            move(bad)
+            stored.append({"collection": bad, "audio_dir": "/data/audio", "dir_as": "str", "pre": "file"})
+    ctx.tally("large collections (130 recordings / 36 clips)", len(stored) + len(reloc))
+    return stored, reloc
+
+
 def _mixed_outside(rng):
     """one recording of several lies outside the directory: the whole save must fail"""
     cases = []
@@ -1059,12 +1174,20 @@ def _grid(ctx):
     ctx.run_cases(OPS["relocate"], _wf(ctx, reloc))
 
 
+def _special(ctx):
+    for gen in (_disk_cases, _large_cases):
+        stored, reloc = gen(ctx)
+        ctx.run_cases(OPS["stored"], _wf(ctx, stored))
+        ctx.run_cases(OPS["relocate"], _wf(ctx, reloc))
+
+
 def run(ctx):
     ctx.stage("tables", _tables, ctx)
     ctx.stage("corpus", ctx.run_corpus, OPS)
     ctx.stage("paths", _paths, ctx)
     ctx.stage("grid", _grid, ctx)
     ctx.stage("routes", _routes, ctx)
+    ctx.stage("on disk / large", _special, ctx)
     ctx.stage("collections", _collections, ctx)
 
 
